@@ -582,7 +582,7 @@ type TileMatrix struct {
 	// Height of the matrix (number of tiles in height)
 	MatrixHeight uint `validate:"required,min=1,max=4294967295" json:"matrixHeight"`
 	// Describes the rows that have variable matrix width
-	VariableMatrixWidths []VariableMatrixWidth `json:"variableMatrixWidths,omitempty"`
+	VariableMatrixWidths []VariableMatrixWidth `validate:"dive" json:"variableMatrixWidths,omitempty"`
 }
 
 func (tm *TileMatrix) UnmarshalJSON(data []byte) error {
@@ -640,9 +640,9 @@ type VariableMatrixWidth struct {
 	// Number of tiles in width that coalesce in a single tile for these rows
 	Coalesce uint `validate:"required,min=2,max=4294967295" json:"coalesce"`
 	// First tile row where the coalescence factor applies for this tilematrix
-	MinTileRow uint `validate:"required,min=0,max=4294967295" json:"minTileRow"`
+	MinTileRow uint `validate:"min=0,max=4294967295" json:"minTileRow"`
 	// Last tile row where the coalescence factor applies for this tilematrix
-	MaxTileRow uint `validate:"required,min=0,max=4294967295" json:"maxTileRow"`
+	MaxTileRow uint `validate:"min=0,max=4294967295" json:"maxTileRow"`
 }
 
 func (tms *TileMatrixSet) SRID() uint {
